@@ -274,6 +274,12 @@ def run_case(ctx, case):
     else:
       layer = ll.Lattice(units=cfg["units"], monotonic_at_every_step=mstep, num_projection_iterations=cfg["iters"], **lkw)
       layer.build(shape)
+      if case["kseed"] % 3 == 1:
+        # finalize_constraints() is called again and again on one layer (after every epoch, say): an earlier call on another
+        # kernel must leave nothing behind that the call judged here picks up
+        layer.kernel.assign((np.random.RandomState(case["kseed"]).normal(size=w.shape) * 3).astype(dt))
+        layer.finalize_constraints()
+        ctx.cls("layer_finalize:second-call-on-the-same-layer")
       layer.kernel.assign(w)
       layer.finalize_constraints()
       out = layer.kernel.numpy()
